@@ -519,6 +519,44 @@ def lookup_truthiness_rule(ctx, rid: str, pid: str, floor: int = 1):
 
 
 # ---------------------------------------------------------------------------------------------------------------------
+_MUT_METHODS = {'append', 'extend', 'insert', 'pop', 'remove', 'clear', 'update', 'setdefault', 'sort', 'reverse', 'add', 'discard', 'popitem', 'fill', 'resize'}
+
+
+def constructor_purity_rule(ctx, rid: str, pid: str, floor: int = 1):
+    repo = ctx.repo
+    ctx.rule(rid, 'constructors leave their arguments alone: __init__ / __post_init__ / __new__ neither stores into an element of a parameter nor calls a mutating method on it '
+             '(unless the name was rebound to a copy first) - the caller\'s dict / list is otherwise changed by building a value, and the value changes when the caller edits it later',
+             floor=floor, style='EFF')
+    n = 0
+    for m, ci, fn in _functions(repo, pid):
+        if fn.name not in ('__init__', '__new__', '__post_init__') or ci is None:
+            continue
+        params = {a.arg for a in fn.args.posonlyargs + fn.args.args + fn.args.kwonlyargs if a.arg not in ('self', 'cls')}
+        if not params:
+            continue
+        rebound: Dict[str, int] = {}
+        for s_ in ast.walk(fn):
+            if isinstance(s_, (ast.Assign, ast.AugAssign, ast.AnnAssign)):
+                for t in (s_.targets if isinstance(s_, ast.Assign) else [s_.target]):
+                    if isinstance(t, ast.Name) and t.id in params:
+                        rebound[t.id] = min(rebound.get(t.id, 10 ** 9), s_.lineno)
+        bad = None
+        for x in ast.walk(fn):
+            nm = None
+            if isinstance(x, ast.Subscript) and isinstance(x.ctx, (ast.Store, ast.Del)) and isinstance(x.value, ast.Name):
+                nm = x.value.id
+            elif isinstance(x, ast.Call) and isinstance(x.func, ast.Attribute) and x.func.attr in _MUT_METHODS and isinstance(x.func.value, ast.Name):
+                nm = x.func.value.id
+            if nm in params and x.lineno <= rebound.get(nm, 10 ** 9):
+                bad = x
+                break
+        n += 1
+        ok = bad is None
+        ctx.ob(rid, f'{ci.qual}.{fn.name}:arguments-untouched', ok, '' if ok else
+               f'`{ast.unparse(bad)[:70]}` changes the caller\'s object passed as a constructor argument', m.rel, (bad.lineno if bad is not None else fn.lineno))
+    return n
+
+
 FLOORS = {   # (z_fwd, z_drop, z_pair): about two thirds of the instances confirmed on the tree the rules were armed on
     'C01': (7, 40, 11),
     'C02': (4, 55, 8),
@@ -550,11 +588,12 @@ def apply(ctx, pid: str, only=None):
         'z_drop': lambda: dropped_parameter_rule(ctx, f'{pid}.z_drop', pid, floor=f2),
         'z_pair': lambda: unordered_pairing_rule(ctx, f'{pid}.z_pair', pid, floor=f3),
         'z_get': lambda: lookup_truthiness_rule(ctx, f'{pid}.z_get', pid, floor=0),
+        'z_ctor': lambda: constructor_purity_rule(ctx, f'{pid}.z_ctor', pid, floor=1),
     }
     out = {}
     for k, f in rules.items():
         if only is None or k in only:
             out[k] = f()
     ctx.decided.append(f'{pid}.z_* general rules on the functions attributed to this property: sibling calls forward the same parameters (z_fwd), a wrapper does not swallow an option its '
-                       'callee accepts (z_drop), positional pairing only over ordered collections (z_pair), presence of a key is not tested by truthiness of the value (z_get)')
+                       'callee accepts (z_drop), positional pairing only over ordered collections (z_pair), presence of a key is not tested by truthiness of the value (z_get), constructors do not mutate their arguments (z_ctor)')
     return out
